@@ -31,6 +31,29 @@ func mkSuite(via string, s shape) (otp.Suite, error) {
 		}
 		return su, err
 	}
+	if via == "edited-raw" || via == "edited-newsuite" {
+		// what a caller gets by taking a constructor's result, copying its configuration and EDITING the copy: the
+		// suite text is kept, the selection flags and formats are set to what the case says (anything a constructor
+		// resolved and tucked away inside the value must not outlive the edit)
+		var su otp.Suite
+		var err error
+		if via == "edited-raw" {
+			su, err = otp.NewRawSuite(s.Text)
+		} else {
+			base := s
+			base.C, base.Q, base.P, base.S, base.T = !s.C, true, !s.P, !s.S, !s.T
+			base.QF, base.PH, base.TS = 1, 1, 60
+			su, err = otp.NewSuite(base.lib())
+		}
+		if err != nil {
+			return nil, err
+		}
+		cfg := su.Config()
+		e := s.lib()
+		cfg.IncludeCounter, cfg.IncludeChallenge, cfg.IncludePassword, cfg.IncludeSession, cfg.IncludeTimestamp = e.IncludeCounter, e.IncludeChallenge, e.IncludePassword, e.IncludeSession, e.IncludeTimestamp
+		cfg.Challenge, cfg.PasswordHash, cfg.TimeStep, cfg.Hash, cfg.Digits, cfg.Raw = e.Challenge, e.PasswordHash, e.TimeStep, e.Hash, e.Digits, e.Raw
+		return cfg, nil
+	}
 	switch via {
 	case "config", "config-framed":
 		return s.lib(), nil
@@ -119,6 +142,52 @@ func c05(r *ev.Run) {
 			}
 		}
 	}
+	// edited copies of constructor results: every registered name with each of its five selection flags flipped
+	// (formats filled in where a field is switched on), and NewSuite results edited to every usable shape
+	var ne int64
+	for ni, name := range names {
+		rs, ok := ref.ParseSuite(name)
+		if !ok {
+			continue
+		}
+		for f := 0; f < 5; f++ {
+			sh := shapeOfRef(rs)
+			switch f {
+			case 0:
+				sh.C = !sh.C
+			case 1:
+				sh.Q = !sh.Q
+			case 2:
+				sh.P = !sh.P
+			case 3:
+				sh.S = !sh.S
+			case 4:
+				sh.T = !sh.T
+			}
+			if sh.Q && sh.QF == 0 {
+				sh.QF = 1
+			}
+			if sh.P && sh.PH == 0 {
+				sh.PH = 1
+			}
+			if sh.T && sh.TS <= 0 {
+				sh.TS = 60
+			}
+			if !ref.Usable(sh.ref()) {
+				continue
+			}
+			for _, via := range []string{"edited-raw", "edited-newsuite"} {
+				c := c05Case{via, sh, (ni + f) % len(ocraKeys), admissible(sh, ni+f)}
+				obs, bad := ocraGen(c)
+				ne++
+				if bad != "" {
+					r.Fail("ocra-generate", fmt.Sprintf("%s %s flag#%d flipped", via, name, f), c, bad, obs)
+				}
+			}
+		}
+	}
+	r.Eval(ne)
+	r.Set("edited_constructor_results", ne)
 	r.Eval(n1)
 	r.Set("registered_suites", len(names))
 	// (2) hand-built configurations
